@@ -1,6 +1,7 @@
 SPECIFICATION TraceSpec
 CONSTANTS
   NoRefresh = "norefresh"
+  AsIsNoContain = FALSE
   Which = "all"
 CONSTRAINT Progress
 POSTCONDITION Accepted
